@@ -573,6 +573,10 @@ class _File:
     def write(self, x):
         FS[self.name].append(("text", x))
 
+    def print_line(self, cells, sep, end):
+        """print(*cells, sep=sep, end=end, file=self): delimiter-separated text written by hand"""
+        FS[self.name].append(("line", list(cells), sep, end))
+
     def read(self):
         recs = FS[self.name]
         if len(recs) == 1 and recs[0][0] in ("text", "json"):
@@ -719,6 +723,20 @@ class _Reader:
             raise Unsupported("csv dialect options beyond delimiter / quoting")
         self.rows = []
         for r in FS[f.name]:
+            if r[0] == "line":
+                # a line produced without the csv module: it parses back into the same cells only if no cell needs quoting
+                cells, sep, end = list(r[1]), r[2], r[3]
+                if sep != delimiter or end != "\n":
+                    raise Unsupported("hand-written line with another separator / line end than the reader's")
+                intact = True
+                for c in cells:
+                    if isinstance(c, SymStr):
+                        if E().branch(z3.InRe(c.e, _needs_quoting(delimiter))):
+                            intact = False
+                    elif any(ch in c for ch in (delimiter, '"', "\r", "\n")):
+                        intact = False
+                self.rows.append(cells if intact else [SymStr(E().fresh_str("csvcell")) for _ in cells])
+                continue
             if r[0] != "row":
                 continue
             cells, wdelim, wquoting = list(r[1]), (r[2] if len(r) > 2 else delimiter), (r[3] if len(r) > 3 else _real_csv.QUOTE_MINIMAL)
@@ -898,8 +916,13 @@ class Graph:
         USED.add("rdflib (URIRef = str, Graph base)")
 
 
-def URIRef(s, *a):
-    return s
+class URIRef(str):
+    """rdflib.URIRef: a str subclass; for a symbolic string the proxy itself stands for the URIRef."""
+
+    def __new__(cls, s="", *a):
+        if isinstance(s, SymStr):
+            return s
+        return str.__new__(cls, s)
 
 
 class _OWL:
